@@ -35,24 +35,29 @@ BUDGET = {
 
 RESPONSE = {b"CURCH": b"CHCUR", b"GETWC": b"WCGET", b"SETWC": b"WCSET", b"REQRM": b"RMREQ", b"SPACK": b"PACKS",
             b"APING": b"APING", b"AVERS": b"SVERS", b"STATU": b"STATV"}
-KIND_VERB = {"get": b"CURCH", "press": b"SPACK", "set": b"SPACK", "getwc": b"GETWC", "setwc": b"SETWC", "rem": b"REQRM"}
+KIND_VERB = {"get": b"CURCH", "press": b"SPACK", "set": b"SPACK", "getwc": b"GETWC", "setwc": b"SETWC", "rem": b"REQRM", "refresh": b"STATU"}
 GATED = {"press", "set", "getwc", "setwc", "rem"}
 
 
 def strategy(tier):
+    # [arrival, kind, retry count, cancel-after]: cancel-after > 0 = the caller's task is cancelled that long after its call
+    # (e.g. a client's own time limit) - whatever it held must be released for the others
     caller = st.tuples(st.sampled_from([0.0, 0.0, 0.05, 0.3, 1.0, 3.0, 7.5, 20.0]),
-                       st.sampled_from(["get", "get", "press", "set", "getwc", "setwc", "rem"]),
-                       st.integers(1, 10)).map(list)
+                       st.sampled_from(["get", "get", "press", "set", "getwc", "setwc", "rem", "refresh"]),
+                       st.integers(1, 10),
+                       st.sampled_from([0, 0, 0, 0, 0, 0.4, 2.5, 5.0])).map(list)
     act = st.one_of(st.sampled_from(["d", "d", "d", "x", "x"]), st.sampled_from([0.5, 2.0, 3.5, 4.5, 6.5]).map(lambda d: ["l", d]))
     jitter = st.one_of(st.just([]), st.lists(st.sampled_from([0.0, 0.0, 0.01, 0.03, 0.05]), min_size=1, max_size=7))
     # a stream of datagrams nobody claims (start s, count, gap ms): keeps the receive queue non-empty while callers wait
     noise = st.one_of(st.none(), st.none(), st.tuples(st.sampled_from([0.0, 0.5, 2.0]), st.integers(10, 60), st.sampled_from([50, 100, 200])).map(list))
     return st.builds(
-        lambda cs, s2c, c2s, j, gate, nz, mode: dict({"callers": cs, "s2c": s2c, "c2s": c2s, "jitter": j, "gate": gate}, **({"noise": nz} if nz else {}),
-                                                      **({"mode": "active"} if mode == "active" and gate != "open" else {})),
+        lambda cs, s2c, c2s, j, gate, nz, mode, hole: dict({"callers": cs, "s2c": s2c, "c2s": c2s, "jitter": j, "gate": gate}, **({"noise": nz} if nz else {}),
+                                                            **({"mode": "active"} if mode == "active" and gate != "open" else {}),
+                                                            **({"hole": hole} if hole and gate == "open" and any(c[1] == "refresh" for c in cs) else {}),
+                                                            **({"outage_age": [5.0, 6.5, 8.0, 9.5, 10.5, 12.0, 14.0, 20.0][(hole + len(cs) + len(s2c)) % 8]} if gate == "outage" else {})),
         st.lists(caller, min_size=1, max_size=8), st.lists(act, max_size=24),
         st.lists(st.sampled_from(["d", "d", "d", "x"]), max_size=10), jitter,
-        st.sampled_from(["open", "open", "open", "stale-ping", "not-connected"]), noise, st.sampled_from(["idle", "active"]))
+        st.sampled_from(["open", "open", "open", "open", "stale-ping", "not-connected", "outage"]), noise, st.sampled_from(["idle", "active"]), st.sampled_from([0, 0, 1, 4, 7]))
 
 
 def _verb(datagram):
@@ -68,19 +73,19 @@ def run_case(case) -> Result:
     jitter = [min(float(j), J_MAX) for j in case.get("jitter", [])]
     J = max(jitter) if jitter else 0.0
     gate = case.get("gate", "open")
-    if gate not in ("open", "stale-ping", "not-connected"):
+    if gate not in ("open", "stale-ping", "not-connected", "outage"):
         raise InvalidCase(gate)
     W = vworld.World(jitter=jitter or None)
     sim = vworld.make_simulator()
     peer = W.add_peer(sim)
-    stats = {"overlap": False, "lost": False}
+    stats = {"overlap": False, "lost": False, "cancelled": False}
 
     async def main(W):
-        spa, tm, ev = await clients.connect_async_spa(W, peer, keep_loops=(gate == "open"))
+        spa, tm, ev = await clients.connect_async_spa(W, peer, keep_loops=(gate in ("open", "outage")))
         try:
             proto = spa._protocol
             lock = recording.install_lock(proto, W)
-            if case.get("mode") == "active":
+            if case.get("mode") == "active" or gate == "outage":
                 # the active timing table (a pump is running): ping frequency 2 s, so "not answering pings" starts after 4 s
                 from geckolib.config import set_config_mode
                 set_config_mode(True)
@@ -88,6 +93,12 @@ def run_case(case) -> Result:
             timeout, pause = GeckoConfig.PROTOCOL_TIMEOUT_IN_SECONDS, GeckoConfig.PAUSE_BETWEEN_RETRIES_IN_SECONDS
             if gate == "stale-ping":
                 spa._last_ping = W.clock.t - (GeckoConfig.PING_FREQUENCY_IN_SECONDS * 2 + 1)
+            elif gate == "outage":
+                # the real thing: the spa goes silent while the library's own ping loop keeps running (active table: pings every
+                # 2 s, "not answering" after 4 s); every command / query issued later must be refused
+                clients.keep_ping_fresh(spa, W)
+                W.blackout = True
+                await W.sleep(float(case.get("outage_age", 14.0)))
             elif gate == "not-connected":
                 spa._is_connected = False
                 clients.keep_ping_fresh(spa, W)
@@ -120,6 +131,9 @@ def run_case(case) -> Result:
                     await spa.async_set_watercare(ix % 5)
                 elif kind == "rem":
                     rec["result_list"] = await spa.async_get_reminders()
+                elif kind == "refresh":
+                    # the refresh loop's multi-segment request (log range), with its own retry budget
+                    rec["result"] = bool(await spa.struct.get(proto, spa._get_status_block_handler_func, retry))
                 else:
                     raise InvalidCase(kind)
                 rec["t_return"] = W.clock.t
@@ -130,10 +144,26 @@ def run_case(case) -> Result:
                 for i in range(n_count):
                     W.inject(W.transports[-1], R.frame(sim.vp_identifier, clients.CLIENT_ID, b"NOISE" + bytes([i])), peer.addr, delay=n_start + i * n_gap)
             tasks = []
-            for ix, (delay, kind, retry) in enumerate(case["callers"]):
+            cancelled_ix = set()
+            if case.get("hole"):
+                # every status answer loses one middle segment, for ever: each refresh attempt ends out of sequence
+                hole = {"n": 0}
+
+                def flt(data):
+                    if b"<DATAS>STATV" not in data:
+                        return None
+                    ix_ = data[data.index(b"<DATAS>STATV") + 12]
+                    return "drop" if ix_ == 1 + int(case["hole"]) % 10 else None
+                W.s2c_filter = flt
+            for ix, c_ in enumerate(case["callers"]):
+                delay, kind, retry = c_[0], c_[1], c_[2]
+                cancel_after = float(c_[3]) if len(c_) > 3 else 0.0
                 t = asyncio.ensure_future(one(ix, float(delay), kind, int(retry)))
                 t.set_name(f"VP:{ix}:{kind}")
                 tasks.append(t)
+                if cancel_after > 0 and gate == "open":
+                    cancelled_ix.add(ix)
+                    W.loop.call_at_exact(W.clock.t + float(delay) + cancel_after, t.cancel)
             # upper bound for everything queued one after the other
             limit = W.clock.t + 25 + (len(tasks) + 3) * 10 * (timeout + pause + 1)
             while not all(t.done() for t in tasks) and W.clock.t < limit:
@@ -142,6 +172,8 @@ def run_case(case) -> Result:
                 if not t.done():
                     res.fail("C06|caller-never-completes", f"{t.get_name()} still pending after {limit - t_base:.0f} virtual seconds")
                     t.cancel()
+                elif t.cancelled():
+                    continue
                 elif t.exception() is not None:
                     raise t.exception()
             if res.violations:
@@ -195,12 +227,15 @@ def run_case(case) -> Result:
                     res.fail("C06|interleaved-send", f"{v!r} inside the refresh loop's window")
             # ---- per caller
             for rec in calls:
+                if rec["ix"] in cancelled_ix and "t_return" not in rec:
+                    stats["cancelled"] = True
+                    continue   # its task was cancelled by the harness: only what it left behind matters (the others complete)
                 name = f"VP:{rec['ix']}:{rec['kind']}"
                 wins = by_task.get(name, [])
                 verb = KIND_VERB[rec["kind"]]
                 sends = [w for w in wire if _verb(w[4]) == verb and any(
                     r["acquired"] is not None and r["acquired"] - 1e-9 <= w[0] <= (r["released"] or 1e18) + 1e-9 for r in wins)]
-                retry = rec["retry"] if rec["kind"] == "get" else GeckoConfig.PROTOCOL_RETRY_COUNT
+                retry = rec["retry"] if rec["kind"] in ("get", "refresh") else GeckoConfig.PROTOCOL_RETRY_COUNT
                 if gate != "open" and rec["kind"] in GATED:
                     if sends or wins:
                         res.fail(f"C06|gate-{gate}|{rec['kind']}", f"{name} sent {len(sends)} datagrams / took the lock {len(wins)} times while the gate is closed")
@@ -221,13 +256,19 @@ def run_case(case) -> Result:
                 seqs = [R.unframe(w[4])[2][5] for w in sends if len(R.unframe(w[4])[2]) > 5]
                 if len(set(seqs)) != len(seqs):
                     res.fail(f"C06|attempt-reused|{rec['kind']}", f"{name}: attempts carry sequence numbers {seqs}")
-                # attempts are one at a time: gap between attempts >= timeout
-                for a, b in zip(sends, sends[1:]):
+                # attempts are one at a time: gap between attempts >= timeout (a multi-segment status request may also end an
+                # attempt early, when the final segment arrives out of sequence)
+                for a, b in zip(sends, sends[1:] if rec["kind"] != "refresh" else []):
                     if b[0] - a[0] < timeout - 1e-6:
                         res.fail(f"C06|attempt-overlap|{rec['kind']}", f"{name}: attempts {b[0] - a[0]:.3f}s apart (timeout {timeout})")
                         break
                 dur = win["released"] - win["acquired"]
                 bound = retry * (timeout + pause) + retry * 2 * (vworld.POLL + J) + 0.01
+                if rec["kind"] == "refresh":
+                    # every arriving segment restarts the attempt's timeout: an attempt lasts at most the chain (13 segments,
+                    # 20 ms apart, < 1 s) plus one timeout; there is no pause between status attempts
+                    # (+ the delays the fault tape may put on single segments, <= 6.5 s each, at most two per attempt count)
+                    bound = retry * (timeout + 1.0 + 13.0) + retry * 2 * (vworld.POLL + J) + 0.01
                 if dur > bound:
                     res.fail(f"C06|completion-bound|{rec['kind']}", f"{name} held the engine {dur:.2f}s, bound {bound:.2f}s (retry {retry})")
                 # result vs deliveries
@@ -237,13 +278,17 @@ def run_case(case) -> Result:
                 # a datagram delivered shortly before the attempt may still be in the receive queue when it starts: an unclaimed
                 # head is discarded within 6 x (poll + J) (the bound C07 checks), so the window opens that much earlier
                 maybe = any(got_in(s[0] - 6 * (vworld.POLL + J), s[0] + timeout + 3 * (vworld.POLL + J)) for s in sends)
-                if "result" in rec:
+                # Attribution of replies to attempts by time only works while nothing piles up in the receive queue: an abandoned
+                # multi-segment answer (cancelled or failed status request) or a noise stream leaves datagrams that delay everything
+                # behind them by up to 6 x (poll + J) each.  (Whether a status transfer succeeds under loss is C01's question.)
+                backlog = bool(noise) or bool(cancelled_ix) or any(c_[1] == "refresh" for c_ in case["callers"])
+                if "result" in rec and rec["kind"] != "refresh" and not backlog:
                     # (a stream of unclaimed datagrams lets a reply wait in the receive queue beyond any attempt window, so the
                     # attribution of replies to attempts by time is only judged without one)
-                    if rec["result"] and not maybe and not noise:
+                    if rec["result"] and not maybe:
                         res.fail(f"C06|reply-from-nowhere|{rec['kind']}", f"{name} returned a reply but no {rv!r} datagram was delivered during its attempts")
                     # (with a noise stream the reply can sit behind unclaimed datagrams for the whole attempt: not judged)
-                    if not rec["result"] and sure and not jitter and not noise:
+                    if not rec["result"] and sure and not jitter:
                         res.fail(f"C06|reply-ignored|{rec['kind']}", f"{name} reported failure although {rv!r} was delivered during an attempt")
                     if not rec["result"]:
                         stats["lost"] = True
@@ -261,4 +306,8 @@ def run_case(case) -> Result:
         res.label("lost-or-late-reply")
     if case.get("noise"):
         res.label("noise-stream")
+    if stats["cancelled"]:
+        res.label("caller-cancelled-mid-request")
+    if case.get("hole"):
+        res.label("status-answers-lose-a-segment")
     return res
